@@ -119,6 +119,15 @@ let run (op_full : string) (a : string array) : string =
        | Ok ps -> "ok " ^ show_paths ps ^ " " ^ hex text
        | Err _ -> "err Other " ^ hex text
        | Panic -> "panic")
+  | "reparse_json_path" ->
+      (* parse, print, parse again; leaf=1 when the round-trip theorem (Props/C09) applies to the accepted path *)
+      (match parse_json_path (unhex a.(0)) with
+       | Ok ps ->
+           let second = (match parse_json_path (show_json_path float_placeholder ps) with
+                         | Ok ps2 -> show_paths ps2 | Err _ -> "err" | Panic -> "panic") in
+           "ok " ^ show_paths ps ^ " " ^ second ^ (if leaf_path no_floats ps then " leaf=1" else " leaf=0")
+       | Err e -> "err " ^ show_err e
+       | Panic -> "panic")
   | "print_parse_key_paths" ->
       let text = show_key_paths (parse_keypaths a.(0)) in
       (match parse_key_paths text with
